@@ -182,6 +182,41 @@ def main(argv=None):
                              version=v, structure=m, find_groups=fg, text=text, output=out[:3000],
                              nonstandard_escape=S.nonstandard_escape(text.replace('MSH|^~\\&', 'MSH|'), ec))
     run.log('message level done: %d failures' % len(run.failures))
+    # ---- fixed probes: canonical leaves that the datatype layer is known to re-format, batch/file headers
+    n_probes = 0
+    for v in versions:
+        lib = hl7apy.load_library(v)
+        first = {}
+        for fname in sorted(lib.FIELDS):
+            r = lib.FIELDS[fname]
+            if r[0] == 'leaf' and r[2] in ('DT', 'DTM', 'NM') and r[2] not in first and fname[:3] in lib.SEGMENTS:
+                first[r[2]] = fname
+        probes = []
+        for dt, lit, fam in (('DT', '09990101', 'year-below-1000'), ('DTM', '0999', 'year-below-1000'),
+                             ('NM', '0.0000001', 'decimal-below-1e-6'), ('NM', '0.000001', None), ('DT', '10000101', None)):
+            if dt in first:
+                probes.append((first[dt], lit, fam))
+        for fname, lit, fam in probes:
+            n_probes += 1
+            try:
+                out = parse_field(lit, name=fname, version=v, validation_level=S.TOLERANT).to_er7()
+            except Exception as ex:  # noqa
+                out = repr(ex)
+            if out != lit:
+                run.fail('canonical-leaf-reformatted', 'a canonical leaf (plain decimal / HL7 date) does not encode back to its text',
+                         version=v, field=fname, text=lit, output=out, family=fam)
+        for seg in ('BHS', 'FHS'):
+            if seg in lib.SEGMENTS and lib.SEGMENTS[seg][1]:
+                n_probes += 1
+                text = '%s|^~\\&|A' % seg
+                try:
+                    out = parse_segment(text, version=v, validation_level=S.TOLERANT).to_er7()
+                except Exception as ex:  # noqa
+                    out = repr(ex)
+                if out != text:
+                    run.fail('batch-header-roundtrip-differs', 'a batch/file header line does not encode back to its text',
+                             version=v, segment=seg, text=text, output=out, field_2_is_the_delimiters=True)
+    dist['fixed_probes'] = n_probes
     evaluated = S.run_model(run, cases, 'c01', per_file=600)
     run.log('model evaluated %d segment cases, %d disagreements' % (evaluated, len(run.disagreements)))
     samples = [{'version': c['v'], 'text': c['text'][:200], 'code': c['code'], 'enc': c['enc'][:200]}
